@@ -11,6 +11,7 @@ spec/Trace_Slice.tla  validation of recorded runs beyond the exhaustive bounds
 import itertools
 import random
 import collections
+import sys
 import warnings
 
 from .. import core
@@ -330,6 +331,20 @@ def replay_iter(ctx, rec, lena):
             first = list(itertools.islice(g1, 1))
             got["CountFrom:interleaved-calls:second"] = list(itertools.islice(g2, n))
             got["CountFrom:interleaved-calls:first"] = (first + list(itertools.islice(g1, max(n - 1, 0))))[:n]
+            # Python integers are unbounded and so is the counter (CountLinear, CountNeverEndsByItself): the
+            # scenario shifted by offsets around and beyond the machine word still delivers n + 8 values
+            if opt in ("both", "kwboth", "start"):
+                for off in (2 ** 31 - 2, 2 ** 63 - 3, sys.maxsize - 1, sys.maxsize + 5, -sys.maxsize + 1, -2 ** 63 - 4,
+                            10 ** 30, -10 ** 30):
+                    st0 = p1 + off
+                    big = {"both": lambda: lena.flow.CountFrom(st0, p2), "kwboth": lambda: lena.flow.CountFrom(step=p2, start=st0),
+                           "start": lambda: lena.flow.CountFrom(st0)}[opt]()
+                    obs = list(itertools.islice(big(), n + 8))
+                    ref = [st0 + i * p2 for i in range(n + 8)]
+                    if obs != ref or not all(type(v) is int for v in obs):
+                        got["CountFrom(bigint)"] = "start=%d step=%d: %d values %r, expected %d values %r" % (
+                            st0, p2, len(obs), obs[:4], len(ref), ref[:4])
+                        break
             # the machine counts by repeated addition (CountStep: v' = v + step), which is what
             # itertools.count does; with binary floats that differs from start + i*step, so the same
             # action sequence is replayed in float arithmetic on scaled arguments
@@ -369,7 +384,7 @@ def replay_iter(ctx, rec, lena):
         got[kind] = "raised " + exc_name(exc)
     ok = True
     for name, val in got.items():
-        if name == "CountFrom(float)" or name.endswith(":odd-values") or name.endswith("input-list-changed"):
+        if name in ("CountFrom(float)", "CountFrom(bigint)") or name.endswith(":odd-values") or name.endswith("input-list-changed"):
             ok = False
             ctx.violation(name, {"scenario": rec, "observed": val})
             continue
